@@ -90,6 +90,8 @@ mod k {
         shift_right_small = |l: LS, s: N| { let o = alg::shift_right_small(&mut l, s); (l, o) };
         cmp = |a: LS, b: LS| alg::cmp(&a, &b);
         cmp_alias = |a: LS| alg::cmp(&a, &a);
+        // the two slices as WINDOWS into larger buffers at limb offsets oa / ob (different addresses modulo 16)
+        cmp_windows = |a: LS, b: LS, oa: N, ob: N| { let mut x = vec![0x1111_1111_1111_1111u64; oa]; x.extend(&a); x.push(7); let mut y = vec![0x2222_2222_2222_2222u64; ob]; y.extend(&b); y.push(9); let r = alg::cmp(&x[oa..oa + a.len()], &y[ob..ob + b.len()]); (r, (x[oa..].as_ptr() as usize % 16) != (y[ob..].as_ptr() as usize % 16)) };
     }
     pub fn dispatch(_bits: usize, op: Op, args: &[V]) -> V {
         call::<0, 0, 0>(op, args)
@@ -408,6 +410,11 @@ pub fn kmodel(_bits: usize, op: k::Op, args: &[V]) -> Expect {
             }
         }
         cmp_alias => is(V::I(0)).nt(true),
+        cmp_windows => {
+            let (a, b) = (bigv(&args[0]), bigv(&args[1]));
+            let e = V::I(a.cmp(&b) as i8 as i128);
+            pred(&format!("({e:?}, _)"), move |g| matches!(g, V::T(t) if t.len() == 2 && t[0] == e)).nt(true)
+        }
         cmp => {
             let (a, b) = (bigv(&args[0]), bigv(&args[1]));
             is(V::I(a.cmp(&b) as i8 as i128)).nt(true)
@@ -1446,6 +1453,30 @@ fn c15(r: &Runner) {
             }
         }
     });
+    // cmp on windows at different addresses modulo 16: equal-length slices of every length 0..=12 (and 17, 33), a pair of
+    // differing positions, offsets (0,1), (1,0), (1,1), (0,0)
+    {
+        let mut cases: Vec<(Limbs, Limbs)> = vec![];
+        for len in (0..=12usize).chain([17, 33]) {
+            let base: Limbs = (0..len as u64).map(|i| i.wrapping_mul(0x9E37_79B9_7F4A_7C15) | 1).collect();
+            cases.push((base.clone(), base.clone()));
+            for i in 0..len {
+                for j in 0..len {
+                    let (mut a, mut b) = (base.clone(), base.clone());
+                    a[i] = a[i].wrapping_add(1);
+                    b[j] = b[j].wrapping_add(1);
+                    cases.push((a, b));
+                }
+            }
+        }
+        r.universe(&format!("cmp on windows into larger buffers at different addresses modulo 16: {} slice pairs x 4 offset pairs", cases.len()), 0, cases.len(), |i, l| {
+            let (a, b) = &cases[i];
+            for (oa, ob) in [(0usize, 1usize), (1, 0), (1, 1), (0, 0), (2, 1), (3, 0)] {
+                l.states(1);
+                k::exec(l, 0, K::cmp_windows, &[vu(a), vu(b), V::n(oa), V::n(ob)]);
+            }
+        });
+    }
     // the same slice as both operands: every (accumulator length, operand length) in 0..=12 x 0..=8, operands with every
     // number of low / high zero limbs, accumulators empty / full / mixed
     {
